@@ -44,11 +44,9 @@ M == Mats[m]
 \* Gaussian integers with pairwise distinct moduli
 EigPool == <<<<3, 0>>, <<0, Neg1>>, <<Neg1, 1>>, <<0 - 2, 0>>, <<2, 1>>, <<0, 0>>>>
 GNorm2(z) == z[1] * z[1] + z[2] * z[2]
-EigLists == {s \in [1..N -> 1..Len(EigPool)] : \A i, j \in 1..N : s[i] = s[j] => i = j}
 
 Init == /\ p \in Perms /\ q \in Perms /\ m \in 1..Len(Mats)
-        /\ \E s \in EigLists : ev = [i \in 1..N |-> EigPool[s[i]]]
-        \* thin the product: the eigenvalue list is tied to q, the matrix to p
+        \* the eigenvalue list is tied to (q, m, p): pairwise distinct entries of the pool
         /\ ev = [i \in 1..N |-> EigPool[((q[i] + m + p[1]) % Len(EigPool)) + 1]]
 Next == UNCHANGED <<p, q, m, ev>>
 
